@@ -69,3 +69,30 @@ harness! { fn fse_update_state_stays_in_table() {
     nd_cover!(nb == 5, "full width");
     core::mem::forget(t);
 } }
+
+// ------------------------------------------------------------------------------------------------ C07 helpers
+/// put arbitrary leftovers of an earlier frame into every field of a table
+pub(crate) fn dirty_table(t: &mut FSETable) {
+    t.accuracy_log = nd::any();
+    t.symbol_probabilities.push(nd::any());
+    t.symbol_counter.push(nd::any());
+    t.decode.push(Entry { base_line: nd::any(), num_bits: nd::any(), symbol: nd::any() });
+}
+/// every field as FSETable::new(max_symbol) leaves it (capacities aside)
+pub(crate) fn table_is_fresh(t: &FSETable, max_symbol: u8) -> bool {
+    t.max_symbol == max_symbol && t.accuracy_log == 0 && t.symbol_probabilities.is_empty() && t.symbol_counter.is_empty() && t.decode.is_empty()
+}
+pub(crate) fn tables_equal(a: &FSETable, b: &FSETable) -> bool {
+    if a.accuracy_log != b.accuracy_log || a.symbol_probabilities.len() != b.symbol_probabilities.len()
+        || a.symbol_counter.len() != b.symbol_counter.len() || a.decode.len() != b.decode.len() { return false; }
+    let mut i = 0;
+    while i < a.decode.len() {
+        if a.decode[i].base_line != b.decode[i].base_line || a.decode[i].num_bits != b.decode[i].num_bits || a.decode[i].symbol != b.decode[i].symbol { return false; }
+        i += 1;
+    }
+    let mut i = 0;
+    while i < a.symbol_probabilities.len() { if a.symbol_probabilities[i] != b.symbol_probabilities[i] { return false; } i += 1; }
+    let mut i = 0;
+    while i < a.symbol_counter.len() { if a.symbol_counter[i] != b.symbol_counter[i] { return false; } i += 1; }
+    true
+}
